@@ -491,6 +491,24 @@ class Fxp():
             self.status['extended_prec'] = False
 
         # upper and lower limits
+        self._update_limits()
+
+        # re store the value
+        if restore_val and _old_val is not None and self.n_frac is not None:
+            if self.scaled:
+                self.set_val((_old_val / 2**_old_n_frac) * self.scale + self.bias)
+            else:
+                self.set_val(_shift_raw(_old_val, self.n_frac - _old_n_frac, _old_n_word), raw=True)
+        else:
+            self.set_val(_old_val, raw=True)
+
+        # update dtype
+        self._update_dtype()
+    
+    def _update_limits(self):
+        """
+        Updates `upper`, `lower` and `precision` according to the sizes, the kind of value (real or complex) and the scaling.
+        """
         if self.signed:
             upper_val = (1 << (self.n_word-1)) - 1
             lower_val = -upper_val - 1
@@ -513,18 +531,6 @@ class Fxp():
             self.lower = self.scale * self.lower + self.bias
             self.precision = self.scale * self.precision
 
-        # re store the value
-        if restore_val and _old_val is not None and self.n_frac is not None:
-            if self.scaled:
-                self.set_val((_old_val / 2**_old_n_frac) * self.scale + self.bias)
-            else:
-                self.set_val(_shift_raw(_old_val, self.n_frac - _old_n_frac, _old_n_word), raw=True)
-        else:
-            self.set_val(_old_val, raw=True)
-
-        # update dtype
-        self._update_dtype()
-    
     def set_best_sizes(self, val=None, n_word=None, n_frac=None, max_error=1.0e-6, n_word_max=64, raw=False):
 
         if val is None:
@@ -1026,6 +1032,10 @@ class Fxp():
 
         # update dtype (after vdtype, which decides the complex suffix)
         self._update_dtype()
+
+        # limits are complex only while the values are complex
+        if self.upper is not None and self.n_frac is not None and (self.vdtype == complex) != isinstance(self.upper, complex):
+            self._update_limits()
 
         # check inaccuracy
         if not np.equal(val, new_val/conv_factor).all() :
